@@ -837,7 +837,11 @@ def case_tensor(case, R):
         se.setRotationMatrix(Rot)
         se.setRotationPrecipitate(Rp)
         se.setElasticConstants(cub['c11'], cub['c12'], cub['c44'])
-        pc = draw_cubic(rng, False)
+        # 40 %: the precipitate has the SAME cubic constants as the matrix but its own orientation (a coherent variant
+        # of the same crystal) - the rotated precipitate tensor must still be the precipitate's rotation of them
+        same = rng.random() < 0.4
+        pc = dict(cub) if same else draw_cubic(rng, False)
+        R.observe('rotation_formula_same_constants_own_rotation' if same else 'rotation_formula_distinct_constants')
         se.setElasticConsantsPrecipitate(pc['c11'], pc['c12'], pc['c44'])
         c4 = EF.convert2To4rankTensor(c2)
         p4 = EF.convert2To4rankTensor(EF.elasticConstantToC(pc['c11'], pc['c12'], pc['c44']))
@@ -845,7 +849,7 @@ def case_tensor(case, R):
         wantp = np.einsum('im,jn,ko,lp,mnop->ijkl', Rp, Rp, Rp, Rp, p4)
         e = max(_rel(se.params.cMatrix_4th, wantm), _rel(se.params.cPrec_4th, wantp),
                 _rel(se.params.cMatrix_2nd, EF.convert4To2rankTensor(wantm)), _rel(se.params.cPrec_2nd, EF.convert4To2rankTensor(wantp)))
-        R.check('rotation_formula', e <= TOL_ORDER, {'function': 'StrainEnergy.update', 'first': 'rotation'}, rel_diff=e)
+        R.check('rotation_formula', e <= TOL_ORDER, {'function': 'StrainEnergy.update', 'first': 'rotation', 'prec_constants': 'as_matrix' if same else 'own'}, rel_diff=e)
     R.set_nontrivial(True)
 
 
